@@ -1923,6 +1923,11 @@ class Exec:
             h = self.methods.get((obj.cls, "call:" + name))
             if h is not None:
                 return h(self, obj, args, kwargs, n, env, fr)
+        if isinstance(obj, Obj) and obj.cls in ("DataArray", "Dataset") and self.abstract and self.class_member(obj.cls, name) is None:
+            if name in self._MUTATING or name.startswith("set"):
+                raise Unsupported(f"method .{name}() may mutate a record object at {loc_of(fr, n)}")
+            from .objmodels import as_opt
+            return self.abs_apply("meth:" + name, [as_opt(obj.ident, obj.cls)] + list(args), kwargs)
         if isinstance(obj, Opaque) and self.abstract:
             if name in self._MUTATING or name.startswith("set"):
                 raise Unsupported(f"method .{name}() may mutate an abstract object at {loc_of(fr, n)}")
